@@ -57,6 +57,8 @@ Record cfg := {
   (* ghost history *)
   dropped : nat;        (* entries whose action failed or whose result was abandoned *)
   nfail : nat;          (* number of fail steps so far *)
+  nabort : nat;         (* number of abort steps so far *)
+  nfin : nat;           (* number of finish steps so far *)
   xc : bool;            (* an ext_cancel step happened *)
   scd : bool;           (* a short_circuit step happened *)
 }.
@@ -68,13 +70,15 @@ Definition set_feeder (c : cfg) q' fd' cl' : cfg :=
   {| q := q'; fd_done := fd'; closed := cl'; sp := sp c; sp_done := sp_done c;
      wD := wD c; wS := wS c; col := col c; col_done := col_done c; ready := ready c;
      cancelled := cancelled c; err := err c;
-     dropped := dropped c; nfail := nfail c; xc := xc c; scd := scd c |}.
+     dropped := dropped c; nfail := nfail c; nabort := nabort c; nfin := nfin c;
+     xc := xc c; scd := scd c |}.
 
 Definition set_spawner (c : cfg) sp' spd' : cfg :=
   {| q := q c; fd_done := fd_done c; closed := closed c; sp := sp'; sp_done := spd';
      wD := wD c; wS := wS c; col := col c; col_done := col_done c; ready := ready c;
      cancelled := cancelled c; err := err c;
-     dropped := dropped c; nfail := nfail c; xc := xc c; scd := scd c |}.
+     dropped := dropped c; nfail := nfail c; nabort := nabort c; nfin := nfin c;
+     xc := xc c; scd := scd c |}.
 
 Definition set_w (k : kind) (c : cfg) (x : wk) : cfg :=
   {| q := q c; fd_done := fd_done c; closed := closed c; sp := sp c; sp_done := sp_done c;
@@ -82,25 +86,28 @@ Definition set_w (k : kind) (c : cfg) (x : wk) : cfg :=
      wS := match k with Ded => wS c | Shr => x end;
      col := col c; col_done := col_done c; ready := ready c;
      cancelled := cancelled c; err := err c;
-     dropped := dropped c; nfail := nfail c; xc := xc c; scd := scd c |}.
+     dropped := dropped c; nfail := nfail c; nabort := nabort c; nfin := nfin c;
+     xc := xc c; scd := scd c |}.
 
 Definition set_collector (c : cfg) col' cd' rd' : cfg :=
   {| q := q c; fd_done := fd_done c; closed := closed c; sp := sp c; sp_done := sp_done c;
      wD := wD c; wS := wS c; col := col'; col_done := cd'; ready := rd';
      cancelled := cancelled c; err := err c;
-     dropped := dropped c; nfail := nfail c; xc := xc c; scd := scd c |}.
+     dropped := dropped c; nfail := nfail c; nabort := nabort c; nfin := nfin c;
+     xc := xc c; scd := scd c |}.
 
 Definition set_ctx (c : cfg) ca' er' : cfg :=
   {| q := q c; fd_done := fd_done c; closed := closed c; sp := sp c; sp_done := sp_done c;
      wD := wD c; wS := wS c; col := col c; col_done := col_done c; ready := ready c;
      cancelled := ca'; err := er';
-     dropped := dropped c; nfail := nfail c; xc := xc c; scd := scd c |}.
+     dropped := dropped c; nfail := nfail c; nabort := nabort c; nfin := nfin c;
+     xc := xc c; scd := scd c |}.
 
-Definition set_ghost (c : cfg) dr' nf' xc' scd' : cfg :=
+Definition set_ghost (c : cfg) dr' nf' na' nfi' xc' scd' : cfg :=
   {| q := q c; fd_done := fd_done c; closed := closed c; sp := sp c; sp_done := sp_done c;
      wD := wD c; wS := wS c; col := col c; col_done := col_done c; ready := ready c;
      cancelled := cancelled c; err := err c;
-     dropped := dr'; nfail := nf'; xc := xc'; scd := scd' |}.
+     dropped := dr'; nfail := nf'; nabort := na'; nfin := nfi'; xc := xc'; scd := scd' |}.
 
 (* errgroup.Go wrapper: a goroutine of the group returns the non-nil error e.  The first such
    error is kept (errOnce) and the group context is cancelled. *)
@@ -116,7 +123,9 @@ Inductive label :=
 | L_feed_close              (* feeder: loop over, close(input), return nil *)
 | L_feed_cancel             (* feeder: case <-groupCtx.Done(): return groupCtx.Err() *)
 | L_finish (k : kind)       (* the entry action of a busy worker returns nil *)
-| L_fail (k : kind)         (* the entry action of a busy worker returns an error *)
+| L_fail (k : kind)         (* the entry action of a busy worker returns an error of its own *)
+| L_abort (k : kind)        (* the entry action (a nested directory, which got this group's
+                               context) returns the cancellation error *)
 | L_deliver (k : kind)      (* rendezvous worker -> collector on the result channel *)
 | L_short_circuit (k : kind)(* same, and the collector returns shortCircuited{} *)
 | L_drop (k : kind)         (* worker holding a result: case <-ctx.Done(): return ctx.Err() *)
@@ -172,14 +181,18 @@ Section flat.
   | S_finish k c m
       (Hv : has_collector v = true) (Hbusy : busy (w k c) = 1 + m) :
       step (L_finish k) c
-        (set_w k c {| idle := idle (w k c); busy := m; hold := 1 + hold (w k c) |})
+        (set_ghost
+           (set_w k c {| idle := idle (w k c); busy := m; hold := 1 + hold (w k c) |})
+           (dropped c) (nfail c) (nabort c) (1 + nfin c) (xc c) (scd c))
   (* checkout.go:328 err == nil: back to the select *)
   | S_finish_co k c m
       (Hv : has_collector v = false) (Hbusy : busy (w k c) = 1 + m) :
       step (L_finish k) c
-        (set_collector
-           (set_w k c {| idle := 1 + idle (w k c); busy := m; hold := hold (w k c) |})
-           (1 + col c) (col_done c) (ready c))
+        (set_ghost
+           (set_collector
+              (set_w k c {| idle := 1 + idle (w k c); busy := m; hold := hold (w k c) |})
+              (1 + col c) (col_done c) (ready c))
+           (dropped c) (nfail c) (nabort c) (1 + nfin c) (xc c) (scd c))
   (* commit.go:401/445, checkout.go:329, status.go:405: return err; the deferred token
      release runs (commit.go:350/366, checkout.go:271/284, status.go:348/361) *)
   | S_fail k c m
@@ -188,7 +201,17 @@ Section flat.
         (raise EntryError
            (set_ghost
               (set_w k c {| idle := idle (w k c); busy := m; hold := hold (w k c) |})
-              (1 + dropped c) (1 + nfail c) (xc c) (scd c)))
+              (1 + dropped c) (1 + nfail c) (nabort c) (nfin c) (xc c) (scd c)))
+  (* commit.go:424-446, checkout.go:316-330, status.go:393-406 when the nested
+     commitDirArtifact / checkoutDir / dirArtifactStatus, which was given this group's ctx,
+     returns ctx.Err(): possible only once this group's context is cancelled *)
+  | S_abort k c m
+      (Hbusy : busy (w k c) = 1 + m) (Hca : cancelled c = true) :
+      step (L_abort k) c
+        (raise ParentCancelled
+           (set_ghost
+              (set_w k c {| idle := idle (w k c); busy := m; hold := hold (w k c) |})
+              (1 + dropped c) (nfail c) (1 + nabort c) (nfin c) (xc c) (scd c)))
   (* commit.go:448 with :281, status.go:408 with :288 (no short circuit) *)
   | S_deliver k c m
       (Hhold : hold (w k c) = 1 + m) (Hcd : col_done c = false) (Hcol : col c < N) :
@@ -206,7 +229,7 @@ Section flat.
               (set_collector
                  (set_w k c {| idle := 1 + idle (w k c); busy := busy (w k c); hold := m |})
                  (1 + col c) true (ready c))
-              (dropped c) (nfail c) (xc c) true))
+              (dropped c) (nfail c) (nabort c) (nfin c) (xc c) true))
   (* commit.go:449-450, status.go:409-410 *)
   | S_drop k c m
       (Hhold : hold (w k c) = 1 + m) (Hca : cancelled c = true) :
@@ -214,7 +237,7 @@ Section flat.
         (raise ParentCancelled
            (set_ghost
               (set_w k c {| idle := idle (w k c); busy := busy (w k c); hold := m |})
-              (1 + dropped c) (nfail c) (xc c) (scd c)))
+              (1 + dropped c) (nfail c) (nabort c) (nfin c) (xc c) (scd c)))
   (* commit.go:396/453, checkout.go:311-312, status.go:385/413 *)
   | S_exit k c m
       (Hidle : idle (w k c) = 1 + m) (Hcl : closed c = true) :
@@ -240,7 +263,7 @@ Section flat.
   | S_ext_cancel c
       (Hxc : xc c = false) :
       step L_ext_cancel c
-        (set_ghost (set_ctx c true (err c)) (dropped c) (nfail c) true (scd c)).
+        (set_ghost (set_ctx c true (err c)) (dropped c) (nfail c) (nabort c) (nfin c) true (scd c)).
 
   Definition init : cfg :=
     {| q := N; fd_done := false; closed := false; sp := 0; sp_done := false;
@@ -248,7 +271,7 @@ Section flat.
        wS := {| idle := 0; busy := 0; hold := 0 |};
        col := 0; col_done := negb (has_collector v); ready := false;
        cancelled := false; err := None;
-       dropped := 0; nfail := 0; xc := false; scd := false |}.
+       dropped := 0; nfail := 0; nabort := 0; nfin := 0; xc := false; scd := false |}.
 
   (* errGroup.Wait() can return: every goroutine started with errGroup.Go has returned, and
      the spawn loop (which runs before Wait on the calling goroutine) is over *)
@@ -291,6 +314,8 @@ Section flat.
   Record Inv (c : cfg) : Prop := {
     (* every entry is in exactly one place *)
     I_sum : q c + busy (wD c) + busy (wS c) + hold (wD c) + hold (wS c) + col c + dropped c = N;
+    (* every entry handed out is being processed or its action has ended in one of three ways *)
+    I_taken : q c + busy (wD c) + busy (wS c) + nfin c + nfail c + nabort c = N;
     I_sp : sp c <= N;
     (* token bounds *)
     I_ded : wlive (wD c) <= D;
@@ -311,10 +336,81 @@ Section flat.
     (* errgroup and history *)
     I_err_canc : err c <> None -> cancelled c = true;
     I_canc_src : cancelled c = true -> xc c = true \/ err c <> None;
-    I_clean : err c = None -> dropped c = 0 /\ nfail c = 0 /\ scd c = false;
+    I_clean : err c = None -> dropped c = 0 /\ nfail c = 0 /\ nabort c = 0 /\ scd c = false;
     I_entry : err c = Some EntryError -> 1 <= nfail c;
     I_parent : err c = Some ParentCancelled -> xc c = true;
     I_short : err c = Some ShortCircuit -> scd c = true;
     I_scd : scd c = true -> sc_on v = true;
+    I_sc_col : scd c = true -> 1 <= col c /\ col_done c = true;
   }.
 End flat.
+
+(* ------------------------------------------------------------------------------------------
+   Tree level.  A directory is a list of children; a leaf is a file whose action succeeds or
+   fails on its own (commitFileArtifact / checkoutFile / fileArtifactStatus take no context).
+   A nested directory runs its own flat instance with the SAME D and S, is handed the group
+   context of its parent, and gives its result to the parent's busy worker.
+
+   The flat level has no entry identities, so a directory execution is tied to its children
+   by counting: the feeder hands out the children in order, so the first (N - q) of them have
+   been taken when the instance is final; each of them has a result justified by its own
+   execution, and the numbers of finish / fail / abort steps of the flat schedule are the
+   numbers of ROk / RFail / RCancelled among these results.  A child may see a cancellation
+   from above only if the parent's group context was cancelled at some point; the abort step
+   itself is enabled only once it is. *)
+
+Inductive tree := Leaf (ok : bool) | Node (children : list tree).
+
+Inductive result := ROk | RFail | RCancelled.
+
+Definition result_eqb (a b : result) : bool :=
+  match a, b with
+  | ROk, ROk | RFail, RFail | RCancelled, RCancelled => true
+  | _, _ => false
+  end.
+
+Fixpoint count (r : result) (l : list result) : nat :=
+  match l with
+  | [] => 0
+  | x :: l' => (if result_eqb r x then 1 else 0) + count r l'
+  end.
+
+(* the error value seen by the caller's worker *)
+Definition result_of (e : option errkind) : result :=
+  match e with
+  | None => ROk
+  | Some EntryError => RFail
+  | Some ParentCancelled => RCancelled
+  | Some ShortCircuit => ROk
+  end.
+
+Fixpoint all_ok (t : tree) : bool :=
+  match t with
+  | Leaf ok => ok
+  | Node ch => forallb all_ok ch
+  end.
+
+Section tree_exec.
+  Context (D S : nat) (v : variant).
+
+  (* exec t xcin r: the operation on t, whose context may (xcin = true) or may not be
+     cancelled from above while it runs, can return r *)
+  Inductive exec : tree -> bool -> result -> Prop :=
+  | exec_leaf ok xcin : exec (Leaf ok) xcin (if ok then ROk else RFail)
+  | exec_node ch xcin tr c outs
+      (Hsteps : steps (length ch) D S v (init (length ch) v) tr c)
+      (Hfinal : final c)
+      (Hxc : xcin = false -> xc c = false)
+      (Hch : exec_children (cancelled c) (firstn (length ch - q c) ch) outs)
+      (Hfin : count ROk outs = nfin c)
+      (Hfail : count RFail outs = nfail c)
+      (Habort : count RCancelled outs = nabort c) :
+      exec (Node ch) xcin (result_of (returned c))
+  with exec_children : bool -> list tree -> list result -> Prop :=
+  | ec_nil cc : exec_children cc [] []
+  | ec_cons cc t ts xci r rs
+      (Hxci : xci = true -> cc = true)
+      (Hex : exec t xci r)
+      (Hrest : exec_children cc ts rs) :
+      exec_children cc (t :: ts) (r :: rs).
+End tree_exec.
